@@ -562,3 +562,133 @@ class GetEncoderNoHiddenState(Lemma):
         e2 = get_encoder({"data_type": "uint32", "num_channels": n2}, sc)
         bad = e1.num_channels != n1 or e2.num_channels != n2
         return {"reproduced": bad, "detail": f"get_encoder for {n1} then {n2} channels -> encoders with {e1.num_channels}, {e2.num_channels} channels"}
+
+
+# --------------------------------------------------------------------------- codec wrappers (parameters handed to the codecs)
+
+from .c01_nibabel import Logged as _Logged  # noqa: E402
+
+CE = "neuroglancer_scripts.chunk_encoding."
+
+
+def _logged(target_, result_fn):
+    class _L(_Logged):
+        target = target_
+        name = target_.rsplit(".", 2)[-2] + "." + target_.rsplit(".", 1)[-1] + "[call-site]"
+
+        def apply(self, interp, fn, args, kwargs):
+            r = result_fn(args, kwargs)
+            ctx().calls_log.append((self.target, {"args": args, "kwargs": kwargs}, r))
+            return r
+    return _L
+
+
+@register
+class CsegWrapper(Lemma):
+    """CompressedSegmentationEncoder: encode and decode hand the codec the SAME block size, the one given at
+    construction (x, y, z order of the info's compressed_segmentation_block_size), the chunk cast to the
+    encoder's little-endian data type, and decode allocates (C, Z, Y, X) from the (x, y, z) chunk size --
+    so the round trip and the format conformance of C02 apply with that block size"""
+    name = "CompressedSegmentationEncoder:encode/decode-use-the-configured-block-size"
+    props = ("C03", "C02")
+    configs = tuple((dt, bs) for dt in ("uint32", "uint64") for bs in ((8, 8, 8), (8, 8, 4), (4, 8, 16)))
+
+    def local_contracts_for(self, cfg):
+        enc = _logged("neuroglancer_scripts._compressed_segmentation.encode_chunk", lambda a, k: "<encoded>")
+        dec = _logged("neuroglancer_scripts._compressed_segmentation.decode_chunk_into", lambda a, k: None)
+        return {k_.target: k_() for k_ in (enc, dec)}
+
+    def run(self, c, cfg):
+        from neuroglancer_scripts.chunk_encoding import CompressedSegmentationEncoder
+        dt, bs = cfg
+        c.interp.contracts.update(self.local_contracts_for(cfg))
+        bsl = list(bs)
+        e = CompressedSegmentationEncoder(dt, 2, bsl)
+        dims = tuple(c.int(n, inp=True) for n in ("Z", "Y", "X"))
+        for d in dims:
+            c.assume(d >= 1)
+        chunk = SArr.fresh(c, "chunk", np.dtype(dt).newbyteorder("<"), (2,) + dims)
+        r = c.interp.call(e.encode, (chunk,))
+        log = c.calls_log
+        encs = [x for x in log if x[0].endswith("encode_chunk")]
+        c.prove("encode:one-codec-call", len(encs) == 1 and r == "<encoded>")
+        if len(encs) == 1:
+            a = encs[0][1]["args"]
+            c.prove("encode:block-size-as-configured(x,y,z)", list(a[1]) == bsl)
+            ok = isinstance(a[0], SArr) and a[0].ndim == 4 and a[0].dtype == np.dtype(dt).newbyteorder("<")
+            c.prove("encode:chunk-in-the-encoder's-little-endian-type,4-D", ok)
+            if ok:
+                i = tuple(c.int(n, inp=True) for n in ("ci", "zi", "yi", "xi"))
+                c.prove("encode:chunk-values-passed-unchanged", implies(a[0].in_bounds(i), a[0].elem(*i) == chunk.elem(*i)))
+        cs = [c.int(n, inp=True) for n in ("csx", "csy", "csz")]
+        for v in cs:
+            c.assume(v >= 1)
+        buf = SBytes.fresh(c, "buf")
+        out = c.interp.call(e.decode, (buf, cs))
+        decs = [x for x in log if x[0].endswith("decode_chunk_into")]
+        c.prove("decode:one-codec-call", len(decs) == 1)
+        if len(decs) == 1:
+            a = decs[0][1]["args"]
+            c.prove("decode:same-block-size-as-encode", list(a[2]) == bsl)
+            c.prove("decode:bytes-passed-unchanged", a[1] is buf)
+            ok = isinstance(a[0], SArr) and a[0] is out and a[0].ndim == 4
+            c.prove("decode:fills-and-returns-one-array", ok)
+            if ok:
+                c.prove("decode:array-shape==(C, csz, csy, csx)", And(a[0].shape[0] == 2, a[0].shape[1] == cs[2], a[0].shape[2] == cs[1], a[0].shape[3] == cs[0]))
+                c.prove("decode:array-dtype", a[0].dtype == np.dtype(dt).newbyteorder("<"))
+
+
+@register
+class JpegWrapper(Lemma):
+    """JpegChunkEncoder hands the codec its configured quality and plane and the channel count"""
+    name = "JpegChunkEncoder:encode/decode-use-the-configured-parameters"
+    props = ("C03",)
+    configs = ((1, 95, "xy"), (3, 60, "xz"))
+
+    def local_contracts_for(self, cfg):
+        enc = _logged("neuroglancer_scripts._jpeg.encode_chunk", lambda a, k: "<jpeg>")
+        dec = _logged("neuroglancer_scripts._jpeg.decode_chunk", lambda a, k: "<decoded>")
+        return {k_.target: k_() for k_ in (enc, dec)}
+
+    def run(self, c, cfg):
+        from neuroglancer_scripts.chunk_encoding import JpegChunkEncoder
+        nch, q, plane = cfg
+        c.interp.contracts.update(self.local_contracts_for(cfg))
+        e = JpegChunkEncoder("uint8", nch, jpeg_quality=q, jpeg_plane=plane)
+        dims = tuple(c.int(n, inp=True) for n in ("Z", "Y", "X"))
+        for d in dims:
+            c.assume(d >= 1)
+        chunk = SArr.fresh(c, "chunk", np.uint8, (nch,) + dims)
+        r = c.interp.call(e.encode, (chunk,))
+        encs = [x for x in c.calls_log if x[0].endswith("_jpeg.encode_chunk")]
+        c.prove("encode:codec-gets-(chunk, quality, plane)-as-configured", len(encs) == 1 and r == "<jpeg>"
+                and encs[0][1]["args"][0] is chunk and tuple(encs[0][1]["args"][1:]) == (q, plane))
+        buf = SBytes.fresh(c, "buf")
+        cs = [4, 5, 6]
+        r2 = c.interp.call(e.decode, (buf, cs))
+        decs = [x for x in c.calls_log if x[0].endswith("_jpeg.decode_chunk")]
+        c.prove("decode:codec-gets-(bytes, chunk size, channel count)", len(decs) == 1 and r2 == "<decoded>"
+                and decs[0][1]["args"][0] is buf and decs[0][1]["args"][1] is cs and decs[0][1]["args"][2] == nch)
+
+
+def native_cseg_wrapper_check():
+    """round trip through the encoder object with non-cubic block sizes, decoded also by the format-derived decoder"""
+    from neuroglancer_scripts.chunk_encoding import CompressedSegmentationEncoder
+    from .c02_cseg import spec_decode
+    rng = np.random.default_rng(1)
+    for bs in ((8, 8, 4), (4, 8, 16), (2, 3, 1)):
+        for dt in ("uint32", "uint64"):
+            a = rng.integers(0, 7, size=(1, 9, 10, 11)).astype(dt)
+            e = CompressedSegmentationEncoder(dt, 1, list(bs))
+            try:
+                buf = bytes(e.encode(a))
+                back = e.decode(buf, [11, 10, 9])
+                spec = spec_decode(buf, a.shape, bs, np.dtype(dt).newbyteorder("<"))
+            except Exception as ex:
+                return {"reproduced": True, "detail": f"compressed_segmentation_block_size {list(bs)} {dt}: {type(ex).__name__} {ex}"}
+            if not np.array_equal(back, a) or not np.array_equal(spec, a):
+                return {"reproduced": True, "detail": f"compressed_segmentation_block_size {list(bs)} {dt}: round trip ok={bool(np.array_equal(back, a))}, a decoder written from the format recovers the data={bool(np.array_equal(spec, a))}"}
+    return {"reproduced": False, "detail": "encoder object round-trips with non-cubic block sizes"}
+
+
+CsegWrapper.replay = lambda self, model, cfg, ob_name: native_cseg_wrapper_check()
